@@ -53,6 +53,7 @@ class Ctx:
         self.functions_analysed: set = set()
         self.extra: Dict[str, object] = {}
         self.shortfalls: List[str] = []
+        self._seen: set = set()
         self.t0 = time.time()
         self._types = None
 
@@ -86,10 +87,13 @@ class Ctx:
             function = function or fn.qualname
             if line is None:
                 line = getattr(node, "lineno", None) or fn.lineno
-        self.obs.append(
-            Ob(self.prop, clause, rule, instance, file or "?", int(line or 0), function or "?", status, why,
-               construct, witness)
-        )
+        ob = Ob(self.prop, clause, rule, instance, file or "?", int(line or 0), function or "?", status, why,
+                construct, witness)
+        k = (status, rule, ob.file, ob.function, construct, instance, ob.line)
+        if k in self._seen:
+            return
+        self._seen.add(k)
+        self.obs.append(ob)
 
     def require(self, cond: bool, msg: str):
         if not cond:
